@@ -30,6 +30,23 @@ REPO = os.environ.get("VERIF_REPO", "/repo")
 WORK = os.path.join(ROOT, "work") if REPO == "/repo" else \
     os.path.join(ROOT, "work", "alt-" + hashlib.sha1(REPO.encode()).hexdigest()[:8])
 
+# A run against another tree also gets its own copy of the Coq development and of the extracted runners
+# (18 + 23 MB, copied with time stamps so that only what the tree changes is rebuilt): files regenerated
+# from the tree (coq/Gen/*.v, model.ml) must not leak into a concurrent run on /repo, and vice versa.
+if REPO != "/repo":
+    os.makedirs(WORK, exist_ok=True)
+    for _name, _lock in (("coq", "coq.lock"), ("ocaml", "ocaml.lock")):
+        _dst = os.path.join(WORK, _name)
+        if not os.path.isdir(_dst):
+            subprocess.run(["flock", os.path.join(ROOT, "work", _lock), "cp", "-a", os.path.join(ROOT, _name), _dst + ".tmp%d" % os.getpid()], check=True)
+            try:
+                os.rename(_dst + ".tmp%d" % os.getpid(), _dst)
+            except OSError:
+                subprocess.run(["rm", "-rf", _dst + ".tmp%d" % os.getpid()])
+    COQ = os.path.join(WORK, "coq")
+    OCAML = os.path.join(WORK, "ocaml")
+LOCKS = os.path.join(ROOT, "work") if REPO == "/repo" else WORK
+
 GOENV = dict(os.environ, GOFLAGS="-mod=mod", GOPROXY="off", GOSUMDB="off", GOTOOLCHAIN="local",
              CGO_LDFLAGS_ALLOW=".*")
 
@@ -80,7 +97,7 @@ def go_build(cmd_name, tags="verif", extra_ldflags=""):
 def coq_make(targets, timeout=1500):
     """Full .vo build of the given targets. Returns (ok, output)."""
     os.makedirs(WORK, exist_ok=True)
-    lock = os.path.join(ROOT, "work", "coq.lock")     # several checks may run at once; one make at a time
+    lock = os.path.join(LOCKS, "coq.lock")     # several checks may run at once; one make at a time
     p = sh("flock %s sh -c './mkproject.sh && make -j16 %s'" % (lock, " ".join(targets)),
            cwd=COQ, timeout=timeout, check=False)
     return p.returncode == 0, p.stdout
@@ -164,7 +181,7 @@ def ocaml_build(area, extract_v):
     d = os.path.join(OCAML, area)
     src = os.path.join(COQ, extract_v)
     os.makedirs(WORK, exist_ok=True)
-    lock = os.path.join(ROOT, "work", "ocaml.lock")
+    lock = os.path.join(LOCKS, "ocaml.lock")
     sh(["flock", lock, "coqc", "-Q", COQ, "SSV", src], cwd=d, timeout=900)
     sh(["flock", lock, "dune", "build", "./%s/run.exe" % area], cwd=OCAML, timeout=900)
     return os.path.join(OCAML, "_build", "default", area, "run.exe")
